@@ -76,6 +76,22 @@ def idle_bg_scenario(rng, sid, window, wait_ms):
     return {"id": sid, "ops": ops, "_d": dname, "_kind": "idle", "_hot": [], "_cold": cold, "_window": window, "_span": wait_ms}
 
 
+def d52_scenario(sid):
+    """D52 (open): the background sampler only ever looks at the table being written when that table holds 19 or more keys.
+    Cold keys over three older tables, 30 hot keys rewritten every 100 ms for 6 s (they live in the newest table), idle window 300 ms:
+    every cold key is idle twenty times over and has to be gone; on the unrepaired tree they are all still stored."""
+    dname = "c10x%d" % sid
+    cold = [dmaplib.hx("cold%03d" % i) for i in range(150)]
+    hot = [dmaplib.hx("hot%02d" % i) for i in range(30)]
+    ops = [{"op": "put", "c": "emb@owner", "d": dname, "k": k, "v": dmaplib.hx("v" * 20)} for k in cold]
+    for r in range(60):
+        ops += [{"op": "put", "c": "emb@owner", "d": dname, "k": k, "v": dmaplib.hx("h" * 20)} for k in hot]
+        ops.append({"op": "sleep", "ms": 100})
+    for k in cold:
+        ops.append({"op": "dump", "d": dname, "k": k})
+    return {"id": sid, "ops": ops, "_d": dname, "_kind": "d52", "_cold": cold}
+
+
 def judge(sc, obs, cfg):
     kind = sc["_kind"]
     if kind == "idle":
@@ -222,6 +238,9 @@ def run(res):
         groups.append(({"members": members, "replicas": 1, "partitions": 7, "table": 1 << 16, "evict_workers": 1,
                         "dmaps": {sc["_d"]: {"maxidle_ms": 300}}}, [sc]))
         sid += 1
+    d52 = d52_scenario(sid)
+    sid += 1
+    groups.append(({"members": 1, "replicas": 1, "partitions": 1, "table": 4096, "evict_workers": 1, "dmaps": {d52["_d"]: {"maxidle_ms": 300}}}, [d52]))
     for cfg, scs in groups:
         for sc in scs:
             sc["ops"] = dmaplib.with_keyinfo(sc["ops"])
@@ -236,6 +255,17 @@ def run(res):
         obs = results[sc["id"]]["obs"]
         for op in sc["ops"]:
             hist[op["op"]] = hist.get(op["op"], 0) + 1
+        if sc["_kind"] == "d52":
+            left = sum(1 for op, ob in zip(sc["ops"], obs) if op["op"] == "dump" and ob.get("copies"))
+            res.coverage["d52_cold_keys_still_stored_after_6s"] = "%d of %d" % (left, len(sc["_cold"]))
+            if left:
+                kf = vlib.match_known(PID, {"kind": "eviction-samples-newest-table-only"})
+                if kf:
+                    res.known_finding(kf["description"])
+                else:
+                    failures.append((sc, (len(obs) - 1, "%d of %d keys idle for 6 s (window 300 ms) in older storage tables are still stored: the background "
+                                                   "eviction only samples the table being written" % (left, len(sc["_cold"])))))
+            continue
         v = judge(sc, obs, sc["_cfg"])
         if v:
             failures.append((sc, v))
